@@ -97,6 +97,7 @@ class GreedyEval(EvalBase):
     def _inner(self, policy, td):
         out = policy(
             td.clone(),
+            self.env,
             decode_type="greedy",
             num_starts=0,
         )
@@ -130,7 +131,7 @@ class AugmentationEval(EvalBase):
             num_augment = self.augmentation.num_augment
         td_init = td.clone()
         td = self.augmentation(td)
-        out = policy(td.clone(), decode_type="greedy", num_starts=0)
+        out = policy(td.clone(), self.env, decode_type="greedy", num_starts=0)
 
         # Move into batches and compute rewards
         rewards = self.env.get_reward(batchify(td_init, num_augment), out["actions"])
@@ -181,6 +182,7 @@ class SamplingEval(EvalBase):
     def _inner(self, policy, td):
         out = policy(
             td.clone(),
+            self.env,
             decode_type="sampling",
             num_starts=self.samples,
             temperature=self.temperature,
@@ -219,6 +221,7 @@ class GreedyMultiStartEval(EvalBase):
         td_init = td.clone()
         out = policy(
             td.clone(),
+            self.env,
             decode_type="multistart_greedy",
             num_starts=self.num_starts,
         )
@@ -281,6 +284,7 @@ class GreedyMultiStartAugmentEval(EvalBase):
         td = self.augmentation(td)
         out = policy(
             td.clone(),
+            self.env,
             decode_type="multistart_greedy",
             num_starts=self.num_starts,
         )
